@@ -25,6 +25,7 @@ import traceback
 
 VERIF = os.path.dirname(os.path.dirname(os.path.abspath(__file__)))
 LEAN = os.path.join(VERIF, "lean")
+OUT = os.environ.get("VERIF_OUT", VERIF)   # where replays/ and evidence/ are written (seed tests run in parallel set it)
 REPO = os.environ.get("DEAP_REPO", "/repo")
 DRIVER = os.path.join(LEAN, ".lake", "build", "bin", "driver")
 CORR_PREFIXES = ("TAPE:", "CORRESPONDENCE:")
@@ -322,7 +323,7 @@ def _jsonable(x):
 
 
 def write_replay(pid, seed, kind, payload):
-    d = os.path.join(VERIF, "replays")
+    d = os.path.join(OUT, "replays")
     os.makedirs(d, exist_ok=True)
     path = os.path.join(d, "%s-%s-seed%d.json" % (pid, kind, seed))
     with open(path, "w") as fh:
@@ -400,7 +401,7 @@ def run_check(pid, tier, seed, replay=None):
     if replay:
         return run_replay(mod, pid, replay)
     for kind in ("oracle", "unproved"):        # a replay file always belongs to the run that names it
-        stale = os.path.join(VERIF, "replays", "%s-%s-seed%d.json" % (pid, kind, seed))
+        stale = os.path.join(OUT, "replays", "%s-%s-seed%d.json" % (pid, kind, seed))
         if os.path.exists(stale):
             os.remove(stale)
 
@@ -593,8 +594,8 @@ def run_check(pid, tier, seed, replay=None):
         "wall_s": round(time.time() - t0, 2),
         "violations": 1 if status else 0,
     }
-    os.makedirs(os.path.join(VERIF, "evidence"), exist_ok=True)
-    with open(os.path.join(VERIF, "evidence", pid + ".json"), "w") as fh:
+    os.makedirs(os.path.join(OUT, "evidence"), exist_ok=True)
+    with open(os.path.join(OUT, "evidence", pid + ".json"), "w") as fh:
         json.dump(ev, fh, indent=1, default=repr)
         fh.write("\n")
     print("%s tier=%s seed=%d theorems=%d/%d cases=%d lines=%d disagreements=%d oracle_failures=%d known=%d wall=%.1fs"
